@@ -71,8 +71,12 @@ def gen_history(rng, length, readonly_safe=False, valkeys=None, funcs=3):
             ops.append(["memoize", f, a, rng.choice(vk), rng.choice(OVERRIDES)])
         elif r < 0.39:
             ops.append(["read", f, a])
-        elif r < 0.42:
+        elif r < 0.41:
             ops.append(["readheld", f, a])  # read through the memento object handed to the last memoize of this call
+        elif r < 0.42:
+            # read through a memento of this call obtained BEFORE it was memoized again (what comes back is not judged
+            # here - it is an earlier value, or nothing if that was removed - but the read must not change later answers)
+            ops.append(["readold", f, a])
         elif r < 0.47:
             ops.append(["get", f, a])
         elif r < 0.50:
@@ -124,6 +128,14 @@ def gen_history(rng, length, readonly_safe=False, valkeys=None, funcs=3):
             block += rng.choice([[["read", f2, a2], ["read", f1, a1]], [["read", f1, a1], ["read", f2, a2], ["read", f1, a1]]])
             at = rng.randrange(len(ops) + 1)
             ops[at:at] = block
+    # aimed block: a call is memoized, memoized again with another value, then read through the memento of the first write
+    if rng.random() < 0.25:
+        f, a = rng.randrange(funcs), rng.randrange(NARGS)
+        v1, v2 = rng.sample([v for v in vk if not v.startswith("part")], 2)
+        block = [["memoize", f, a, v1, None], ["memoize", f, a, v2, rng.choice([None, None, "ovr/shared"])], ["readold", f, a],
+                 ["read", f, a], ["get", f, a], ["read", f, a]]
+        at = rng.randrange(len(ops) + 1)
+        ops[at:at] = block
     return ops
 
 
@@ -135,7 +147,7 @@ class Model:
 
     def apply(self, op):
         k = op[0]
-        if k == "reopen":
+        if k in ("reopen", "readold"):
             return None
         if k == "memoize":
             _, f, a, vk, ovr = op
@@ -200,6 +212,7 @@ class Refs:
         self.ah = [[w.arg_hash for w in row] for row in self.fwa]
         self.ah_index = [{h: i for i, h in enumerate(row)} for row in self.ah]
         self.held = {}  # (backend id, f, a) -> memento object handed to the last memoize
+        self.older = {}  # (backend id, f, a) -> memento object handed to the memoize before that one
         self.kept = []  # values handed back by reads: the harness holds on to them, like a caller who still uses them
 
     def memento(self, f, a, value):
@@ -231,7 +244,17 @@ def apply_backend(backend, refs, vals, op, model_before=None):
             m = refs.memento(f, a, v)
             backend.memoize(ovr, m, v)
             if not getattr(backend, "read_only", False):  # (a read-only backend skips the write: nothing to read through m)
+                if (id(backend), f, a) in refs.held:
+                    refs.older[(id(backend), f, a)] = refs.held[(id(backend), f, a)]
                 refs.held[(id(backend), f, a)] = m
+            return None
+        if k == "readold":
+            m = refs.older.get((id(backend), op[1], op[2]))
+            if m is not None:
+                try:
+                    refs.kept.append(backend.read_result(m))
+                except Exception:
+                    pass  # (the earlier value may have been removed since)
             return None
         if k == "readheld":
             m = refs.held.get((id(backend), op[1], op[2]))
